@@ -937,6 +937,19 @@ func (em *emitter) emitUnaryOp(expr *ast.UnaryOperator, reg int8, regType reflec
 
 	// &operand
 	case ast.OperatorAddress:
+		// The arrays and the structs held by a non-local variable are copied
+		// when the variable is read, so an element or a field to address is
+		// reached through a pointer to the variable, bound to its identifier
+		// as if it were an indirect local variable.
+		if root := em.nonLocalAggregateRoot(operand); root != nil && !em.fb.declaredInFunc(root.Name) {
+			if index, ok := em.varStore.nonLocalVarIndex(root); ok {
+				em.fb.enterScope()
+				defer em.fb.exitScope()
+				ptr := em.fb.newRegister(reflect.Pointer)
+				em.fb.emitGetVarAddr(index, ptr)
+				em.fb.bindVarReg(root.Name, -ptr)
+			}
+		}
 		switch operand := operand.(type) {
 
 		// &a
